@@ -277,30 +277,62 @@ theorem getFreeAncilla_sem {σ0 : FState} {a : Nat}
   · intro p hp; rw [he] at hp; exact Or.inl ⟨p, hp, rfl⟩
   · intro m hm'; rw [hm] at hm'; exact Or.inl hm'
 
+/-- `get_free_ancilla` adds at most the returned qubit to the ancilla set -/
+theorem getFreeAncilla_anc {a : Nat} {s s' : CState} (h : getFreeAncilla.run s = .ok (a, s')) :
+    ∀ m ∈ s'.qc.anc, m ∈ s.qc.anc ∨ m = a := by
+  unfold getFreeAncilla at h
+  simp only [run_bind_ok] at h
+  obtain ⟨s0, s1, hget, h⟩ := h
+  obtain ⟨e1, e2⟩ := run_get_ok.mp hget
+  subst e2; subst e1
+  split at h
+  · exact (run_throw_ok.mp h).elim
+  · next c rest hch =>
+    simp only [run_bind_ok] at h
+    obtain ⟨u, s1, hset, h⟩ := h
+    have := run_set_ok.mp hset; subst this
+    split at h
+    · simp only [run_bind_ok] at h
+      obtain ⟨i, s2, hadd, u2, s3, hm, hif⟩ := h
+      have hs4 : a = i ∧ s' = s3 := by
+        split at hif
+        · simp only [run_bind_ok, run_throw_ok] at hif
+          obtain ⟨_, _, hf, _⟩ := hif
+          exact hf.elim
+        · exact run_pure_ok.mp hif
+      obtain ⟨rfl, rfl⟩ := hs4
+      obtain ⟨rfl, rfl⟩ := addQubit_run hadd
+      have := modQC_run hm; subst this
+      intro m hm'
+      rcases mem_setIns hm' with h' | h'
+      · exact Or.inl h'
+      · exact Or.inr h'
+    · split at h
+      · simp only [run_bind_ok, run_throw_ok] at h
+        obtain ⟨_, _, hf, _⟩ := h
+        exact hf.elim
+      · simp only [run_bind_ok] at h
+        obtain ⟨u3, s3, hm, hp⟩ := h
+        obtain ⟨rfl, rfl⟩ := run_pure_ok.mp hp
+        have := modQC_run hm; subst this
+        exact fun m hm' => Or.inl hm'
+
 theorem markAncilla_run {w : Nat} {u : Unit} {s s' : CState} (h : (markAncilla w).run s = .ok (u, s')) :
     s'.qc.gates = s.qc.gates ∧ s'.qc.numQubits = s.qc.numQubits ∧ s'.qc.free = s.qc.free ∧
       s'.expq = s.expq ∧ s'.qc.anc = s.qc.anc ∧
       ∀ m ∈ s'.qc.marked, m ∈ s.qc.marked ∨ (m = w ∧ w ∈ s.qc.anc) := by
   unfold markAncilla at h
-  dsimp only at h
   obtain ⟨qc, s1, hq, h⟩ := run_bind_ok.mp h
   obtain ⟨rfl, rfl⟩ := getQC_run hq
   split at h
   · next hc =>
-    have hc' : w ∈ s1.qc.anc := by simpa using hc
-    split at h
-    · obtain ⟨u1, s2, hev, hm⟩ := run_bind_ok.mp h
-      have := event_run hev; subst this
-      have := modQC_run hm; subst this
-      refine ⟨rfl, rfl, rfl, rfl, rfl, fun m hm => ?_⟩
-      rcases mem_setIns hm with hm | rfl
-      · exact Or.inl hm
-      · exact Or.inr ⟨rfl, hc'⟩
-    · have := modQC_run h; subst this
-      refine ⟨rfl, rfl, rfl, rfl, rfl, fun m hm => ?_⟩
-      rcases mem_setIns hm with hm | rfl
-      · exact Or.inl hm
-      · exact Or.inr ⟨rfl, hc'⟩
+    simp only [Bool.and_eq_true] at hc
+    have hc' : w ∈ s1.qc.anc := by simpa using hc.1
+    have := modQC_run h; subst this
+    refine ⟨rfl, rfl, rfl, rfl, rfl, fun m hm => ?_⟩
+    rcases mem_setIns hm with hm | rfl
+    · exact Or.inl hm
+    · exact Or.inr ⟨rfl, hc'⟩
   · obtain ⟨_, rfl⟩ := run_pure_ok.mp h
     exact ⟨rfl, rfl, rfl, rfl, rfl, fun m hm => Or.inl hm⟩
 
@@ -538,7 +570,10 @@ theorem exprSem_not {inputs : List String} {ρ : Env} {σ0 : FState} {r : String
         exact (amb.fresh n hn).1 (e1.trans (hsym sy rfl))
       | none => simp at hc
     | _ => simp at hc
-  · obtain ⟨eret, s2, he, h2⟩ := run_bind_ok.mp h1
+  · obtain ⟨sh, s1', hsh, k1⟩ := run_bind_ok.mp h1
+    have hs1' := (expqGet?_ok hsh hp.good).1
+    rw [hs1'] at k1
+    obtain ⟨eret, s2, he, h2⟩ := run_bind_ok.mp k1
     obtain ⟨st1, helt⟩ := exprSpec (B := (· = r)) x none none he hp.good (by intro d hd0; cases hd0)
       (by intro y hy; cases hy)
     obtain ⟨sem1, hv1, _⟩ := ih none none he hp
@@ -562,7 +597,7 @@ theorem exprSem_not {inputs : List String} {ρ : Env} {σ0 : FState} {r : String
         | none => rfl
         | some d => simp at hcond
       subst hdn
-      have hanc : eret ∈ s3.qc.anc := by simpa using hcond.2
+      have hanc : eret ∈ s3.qc.anc := by simpa using hcond.1.2
       obtain ⟨u1, s4, hev, h4⟩ := run_bind_ok.mp h3
       obtain ⟨u2, s5, hx, h5⟩ := run_bind_ok.mp h4
       obtain ⟨u3, s6, hset, h6⟩ := run_bind_ok.mp h5
@@ -832,6 +867,19 @@ theorem dest_sem {inputs : List String} {ρ : Env} {σ0 : FState} {r : String} (
     have := (hb d hm).2
     omega
 
+/-- the destination is a qubit of the circuit -/
+theorem dest_lt {inputs : List String} {ρ : Env} {σ0 : FState}
+    {dest : Option Nat} {d : Nat} {s s2 s3 : CState}
+    (hp2 : Pre inputs ρ σ0 s2) (hnq : s.qc.numQubits ≤ s2.qc.numQubits)
+    (hd : ∀ d, dest = some d → inputs.length ≤ d ∧ d < s.qc.numQubits)
+    (h : (destOr dest).run s2 = .ok (d, s3)) : d < s3.qc.numQubits := by
+  cases dest with
+  | some d0 =>
+    obtain ⟨rfl, rfl⟩ := run_pure_ok.mp h
+    have := (hd d rfl).2
+    omega
+  | none => exact (getFreeAncilla_ok (B := fun _ => True) h hp2.good).2
+
 theorem exprSem_and {inputs : List String} {ρ : Env} {σ0 : FState} {r : String} (amb : Amb inputs σ0 r)
     {args : List BExp} (ih : ArgsSem inputs ρ σ0 r args) : ExprSem inputs ρ σ0 r (.and args) := by
   intro dest sym a s s' h hp hcache hd hsym _
@@ -963,28 +1011,6 @@ theorem Sem.of_gatesOnly {σ0 : FState} {W : Nat → Prop} {s s' : CState} (h : 
   · intro p hp; rw [h.expq] at hp; exact Or.inl ⟨p, hp, rfl⟩
   · intro m hm; rw [h.marked] at hm; exact Or.inl hm
 
-theorem xAll_run {σ0 : FState} : ∀ (es : List Nat) {u : Unit} {s s' : CState},
-    (xAll es).run s = .ok (u, s') → es.Nodup →
-    GatesOnly s s' ∧ ∀ q, cur σ0 s' q = if q ∈ es then !cur σ0 s q else cur σ0 s q
-  | [], u, s, s', h, _ => by
-    unfold xAll at h
-    obtain ⟨_, rfl⟩ := run_pure_ok.mp h
-    exact ⟨GatesOnly.refl _, fun q => by simp⟩
-  | i :: is, u, s, s', h, hn => by
-    unfold xAll at h
-    obtain ⟨u1, s1, h1, h2⟩ := run_bind_ok.mp h
-    have a1 := xGate_run h1
-    obtain ⟨hin, hn'⟩ := List.nodup_cons.mp hn
-    obtain ⟨g2, hv⟩ := xAll_run is h2 hn'
-    refine ⟨a1.gatesOnly.trans g2, fun q => ?_⟩
-    rw [hv q]
-    by_cases hq : q = i
-    · subst hq
-      simp only [hin, if_false, List.mem_cons, true_or, if_true]
-      rw [a1.cur_eq rfl σ0]; simp
-    · simp only [List.mem_cons, hq, false_or]
-      rw [a1.cur_ne rfl σ0 q hq]
-
 theorem or2_bool (d a b : Bool) : Bool.xor (Bool.xor (Bool.xor d a) b) (a && (b && true)) = Bool.xor d (a || (b || false)) := by
   cases d <;> cases a <;> cases b <;> rfl
 
@@ -995,7 +1021,155 @@ theorem all_not_eq (es : List Nat) (f g : Nat → Bool) (h : ∀ q ∈ es, g q =
     simp only [List.all_cons, List.any_cons, h a List.mem_cons_self,
       ih (fun q hq => h q (List.mem_cons_of_mem _ hq)), Bool.not_or]
 
-theorem orGates_sem {σ0 : FState} {es : List Nat} {dest : Option Nat} {e : BExp} {d a : Nat}
+theorem any_of_mem_iff {l1 l2 : List Nat} (f : Nat → Bool) (h : ∀ x, x ∈ l1 ↔ x ∈ l2) : l1.any f = l2.any f := by
+  rw [Bool.eq_iff_iff]
+  simp only [List.any_eq_true]
+  constructor
+  · rintro ⟨x, hx, hf⟩; exact ⟨x, (h x).mp hx, hf⟩
+  · rintro ⟨x, hx, hf⟩; exact ⟨x, (h x).mpr hx, hf⟩
+
+theorem any_congr_mem {l : List Nat} {f g : Nat → Bool} (h : ∀ x ∈ l, f x = g x) : l.any f = l.any g := by
+  induction l with
+  | nil => rfl
+  | cons a l ih =>
+    simp only [List.any_cons, h a List.mem_cons_self, ih (fun x hx => h x (List.mem_cons_of_mem _ hx))]
+
+/-- what a piece of the or-chain does, from a state with an empty free set whose unallocated qubits are zero:
+only `d` changes among the qubits that existed, `d ^= acc | rest…`; new qubits are marked ancillas -/
+structure ChainSem (σ0 : FState) (d : Nat) (v : Bool) (s s' : CState) : Prop where
+  sem : Sem σ0 (· = d) NoK (fun m => s.qc.numQubits ≤ m) s s'
+  val : cur σ0 s' d = Bool.xor (cur σ0 s d) v
+  anc : ∀ m ∈ s'.qc.anc, m ∈ s.qc.anc ∨ s.qc.numQubits ≤ m
+
+/-- `cx acc d; cx i d; mcx [acc, i] d`: `d ^= acc | i` -/
+theorem orGate_sem {σ0 : FState} {acc i d : Nat} {u : Unit} {s s' : CState}
+    (h : StateT.run (do cx acc d; cx i d; mcx [acc, i] d : M Unit) s = .ok (u, s'))
+    (hacc : acc ≠ d) (hi : i ≠ d) :
+    GatesOnly s s' ∧ (∀ q, q ≠ d → cur σ0 s' q = cur σ0 s q) ∧
+      cur σ0 s' d = Bool.xor (cur σ0 s d) (cur σ0 s acc || cur σ0 s i) := by
+  obtain ⟨u1, s1, h1, k1⟩ := run_bind_ok.mp h
+  obtain ⟨u2, s2, h2, k2⟩ := run_bind_ok.mp k1
+  have a1 := cx_run h1
+  have a2 := cx_run h2
+  have a3 : Appended (.MCX [acc, i].length) ([acc, i] ++ [d]) s2 s' := mcx_run k2
+  refine ⟨(a1.gatesOnly.trans a2.gatesOnly).trans a3.gatesOnly, ?_, ?_⟩
+  · intro q hq
+    rw [a3.cur_ne rfl σ0 q hq, a2.cur_ne rfl σ0 q hq, a1.cur_ne rfl σ0 q hq]
+  · rw [a3.cur_eq rfl σ0, a2.cur_eq rfl σ0, a1.cur_eq rfl σ0]
+    simp only [List.all_cons, List.all_nil]
+    rw [a2.cur_ne rfl σ0 acc hacc, a2.cur_ne rfl σ0 i hi, a1.cur_ne rfl σ0 acc hacc, a1.cur_ne rfl σ0 i hi]
+    cases cur σ0 s d <;> cases cur σ0 s acc <;> cases cur σ0 s i <;> rfl
+
+theorem orChain_sem {σ0 : FState} {dest : Nat} : ∀ (rest : List Nat) (acc : Nat) {u : Unit} {s s' : CState},
+    (orChain dest acc rest).run s = .ok (u, s') → rest ≠ [] → s.qc.free = [] →
+    (∀ q, s.qc.numQubits ≤ q → cur σ0 s q = false) → dest < s.qc.numQubits → acc ≠ dest →
+    acc < s.qc.numQubits → (∀ i ∈ rest, i < s.qc.numQubits ∧ i ≠ dest) →
+    ChainSem σ0 dest (cur σ0 s acc || rest.any (cur σ0 s)) s s' ∧ s'.qc.free = [] ∧
+      (∀ q, s'.qc.numQubits ≤ q → cur σ0 s' q = false)
+  | [], acc, u, s, s', _, hne, _, _, _, _, _, _ => absurd rfl hne
+  | [i], acc, u, s, s', h, _, hf, hz, hd, hacc, _, hr => by
+    unfold orChain at h
+    obtain ⟨hi1, hi2⟩ := hr i List.mem_cons_self
+    obtain ⟨g, hfr, hv⟩ := orGate_sem (σ0 := σ0) h hacc hi2
+    refine ⟨⟨(Sem.of_gatesOnly g (fun q hq => hfr q hq)).mono (fun _ _ h => h) (fun _ h => h) (fun _ h => h.elim), ?_,
+      fun m hm => Or.inl (g.anc ▸ hm)⟩, by rw [g.free]; exact hf, ?_⟩
+    · rw [hv]; simp
+    · intro q hq
+      rw [g.nq] at hq
+      rw [hfr q (by omega)]; exact hz q hq
+  | i :: j :: rest, acc, u, s, s', h, _, hf, hz, hd, hacc, haccl, hr => by
+    unfold orChain at h
+    obtain ⟨d, s1, hfa, k1⟩ := run_bind_ok.mp h
+    obtain ⟨semf, hcf, hdf, hnf⟩ := getFreeAncilla_sem (σ0 := σ0) hfa hf
+    obtain ⟨hda, _, hgf, hff, _, _⟩ := getFreeAncilla_fresh hfa hf
+    obtain ⟨u2, s2, hm, k2⟩ := run_bind_ok.mp k1
+    obtain ⟨semm, hcm⟩ := markAncilla_sem (σ0 := σ0) hm
+    obtain ⟨mg, mn, mf, _, manc, mmk⟩ := markAncilla_run hm
+    have k2' : StateT.run (do
+        (do cx acc d; cx i d; mcx [acc, i] d : M Unit)
+        orChain dest d (j :: rest) : M Unit) s2 = .ok (u, s') := by
+      simpa only [bind_assoc] using k2
+    obtain ⟨u3, s3, hgate, k3⟩ := run_bind_ok.mp k2'
+    obtain ⟨hi1, hi2⟩ := hr i List.mem_cons_self
+    have hdd : d ≠ dest := by omega
+    have haccd : acc ≠ d := by omega
+    have hid : i ≠ d := by omega
+    obtain ⟨g3, hfr3, hv3⟩ := orGate_sem (σ0 := σ0) hgate haccd hid
+    have hn3 : s3.qc.numQubits = s.qc.numQubits + 1 := by rw [g3.nq, mn, hnf]
+    have hcur2 : cur σ0 s2 = cur σ0 s := by rw [hcm, hcf]
+    have hzd : cur σ0 s d = false := hz d (by omega)
+    have hv3' : cur σ0 s3 d = (cur σ0 s acc || cur σ0 s i) := by
+      rw [hv3, hcur2, hzd]; simp
+    have hfr3' : ∀ q, q ≠ d → cur σ0 s3 q = cur σ0 s q := by
+      intro q hq; rw [hfr3 q hq, hcur2]
+    obtain ⟨ih, hf', hz'⟩ := orChain_sem (σ0 := σ0) (j :: rest) d k3 (by simp)
+      (by rw [g3.free, mf]; exact hff)
+      (by intro q hq; rw [hn3] at hq; rw [hfr3' q (by omega)]; exact hz q (by omega))
+      (by rw [hn3]; omega) hdd (by rw [hn3]; omega)
+      (by intro x hx
+          obtain ⟨h1, h2⟩ := hr x (List.mem_cons_of_mem _ hx)
+          exact ⟨by rw [hn3]; omega, h2⟩)
+    have hany : (j :: rest).any (cur σ0 s3) = (j :: rest).any (cur σ0 s) := by
+      apply any_congr_mem
+      intro x hx
+      have := (hr x (List.mem_cons_of_mem _ hx)).1
+      exact hfr3' x (by omega)
+    have sem3 : Sem σ0 (· = d) NoK NoQ s2 s3 := Sem.of_gatesOnly g3 (fun q hq => hfr3 q hq)
+    refine ⟨⟨(((semf.trans' semm).trans' sem3).trans' ih.sem).mono ?_ ?_ ?_, ?_, ?_⟩, hf', hz'⟩
+    · rintro q hq (((h | h) | h) | h)
+      · exact h.elim
+      · exact h.elim
+      · omega
+      · exact h
+    · rintro c (((h | h) | h) | h) <;> exact h.elim
+    · rintro m (((h | h) | h) | h)
+      · exact h.elim
+      · rw [h.1]; omega
+      · exact h.elim
+      · rw [hn3] at h; omega
+    · rw [ih.val, hfr3' dest (Ne.symm hdd), hv3', hany]
+      simp only [List.any_cons, Bool.or_assoc]
+    · intro m hm
+      rcases ih.anc m hm with h | h
+      · rw [g3.anc, manc] at h
+        rcases getFreeAncilla_anc hfa m h with h' | h'
+        · exact Or.inl h'
+        · exact Or.inr (by omega)
+      · rw [hn3] at h; exact Or.inr (by omega)
+
+theorem orWide_sem {σ0 : FState} {d : Nat} {erets es : List Nat} {u : Unit} {s s' : CState}
+    (h : (orWide d erets es).run s = .ok (u, s')) (hlen : 2 < es.length) (hd : d ∉ es)
+    (hf : s.qc.free = []) (hz : ∀ q, s.qc.numQubits ≤ q → cur σ0 s q = false) (hdlt : d < s.qc.numQubits)
+    (hes : ∀ x ∈ es, x < s.qc.numQubits) :
+    ChainSem σ0 d (es.any (cur σ0 s)) s s' := by
+  unfold orWide at h
+  dsimp only at h
+  rcases run_ite_ok.mp h with ⟨_, h⟩ | ⟨hne, h⟩
+  · obtain ⟨_, _, hthrow, _⟩ := run_bind_ok.mp h
+    exact (run_throw_ok.mp hthrow).elim
+  · have heq : sortNat (pySetOrder erets) = es := by simpa using hne
+    have hmem : ∀ x, x ∈ pySetOrder erets ↔ x ∈ es := by
+      intro x; rw [← heq]; unfold sortNat; exact List.mem_mergeSort.symm
+    have hl : (pySetOrder erets).length = es.length := by
+      rw [← heq]; unfold sortNat; exact (List.length_mergeSort _).symm
+    cases ho : pySetOrder erets with
+    | nil => rw [ho] at hl; simp at hl; omega
+    | cons a rest =>
+      rw [ho] at h hmem hl
+      have hrest : rest ≠ [] := by
+        rintro rfl; simp at hl; omega
+      have ha : a ∈ es := (hmem a).mp List.mem_cons_self
+      obtain ⟨cs, _, _⟩ := orChain_sem (σ0 := σ0) rest a h hrest hf hz hdlt
+        (by rintro rfl; exact hd ha) (hes a ha)
+        (fun i hi => by
+          have hie : i ∈ es := (hmem i).mp (List.mem_cons_of_mem _ hi)
+          exact ⟨hes i hie, by rintro rfl; exact hd hie⟩)
+      have hany : (cur σ0 s a || rest.any (cur σ0 s)) = es.any (cur σ0 s) := by
+        have := any_of_mem_iff (cur σ0 s) hmem
+        simpa only [List.any_cons] using this
+      exact ⟨cs.sem, by rw [cs.val, hany], cs.anc⟩
+
+theorem orGates_sem {σ0 : FState} {erets es : List Nat} {dest : Option Nat} {e : BExp} {d a : Nat}
     {s s' : CState}
     (h : StateT.run (
         if es.length ≤ 2 then do
@@ -1014,33 +1188,29 @@ theorem orGates_sem {σ0 : FState} {es : List Nat} {dest : Option Nat} {e : BExp
                   pure d
                 else pure d
         else do
-          xAll es
-          mcx es d
-          xAll es
-          xGate d
+          orWide d erets es
           markAll es
           if dest.isNone = true then do
               expqSet e d
               pure d
             else pure d : M Nat) s = .ok (a, s'))
-    (hd : d ∉ es) :
-    a = d ∧ Sem σ0 (· = d) (· = e) (fun m => m ∈ es ∧ m ∈ s.qc.anc) s s' ∧
+    (hd : d ∉ es) (hf : s.qc.free = []) (hz : ∀ q, s.qc.numQubits ≤ q → cur σ0 s q = false)
+    (hdlt : d < s.qc.numQubits) (hes : ∀ x ∈ es, x < s.qc.numQubits) :
+    a = d ∧ Sem σ0 (· = d) (· = e) (fun m => (m ∈ es ∧ m ∈ s.qc.anc) ∨ s.qc.numQubits ≤ m) s s' ∧
       cur σ0 s' d = Bool.xor (cur σ0 s d) (es.any (cur σ0 s)) := by
-  -- every branch: gates `s → t` touching only `d` (net), then the common tail
-  have fin : ∀ (t : CState), GatesOnly s t → (∀ q, q ≠ d → cur σ0 t q = cur σ0 s q) →
-      cur σ0 t d = Bool.xor (cur σ0 s d) (es.any (cur σ0 s)) →
+  -- every branch: a piece `s → t` that (among the old qubits) touches only `d`, then the common tail
+  have fin : ∀ (t : CState), ChainSem σ0 d (es.any (cur σ0 s)) s t →
       StateT.run (do
           markAll es
           if dest.isNone = true then do
               expqSet e d
               pure d
             else pure d : M Nat) t = .ok (a, s') →
-      a = d ∧ Sem σ0 (· = d) (· = e) (fun m => m ∈ es ∧ m ∈ s.qc.anc) s s' ∧
+      a = d ∧ Sem σ0 (· = d) (· = e) (fun m => (m ∈ es ∧ m ∈ s.qc.anc) ∨ s.qc.numQubits ≤ m) s s' ∧
         cur σ0 s' d = Bool.xor (cur σ0 s d) (es.any (cur σ0 s)) := by
-    intro t hg hfr hv hrun
+    intro t ct hrun
     obtain ⟨rfl, semf, hcf⟩ := finish_sem (σ0 := σ0) hrun
-    have sem0 : Sem σ0 (· = a) NoK NoQ s t := Sem.of_gatesOnly hg (fun q hq => hfr q hq)
-    refine ⟨rfl, (sem0.trans' semf).mono ?_ ?_ ?_, by rw [hcf, hv]⟩
+    refine ⟨rfl, (ct.sem.trans' semf).mono ?_ ?_ ?_, by rw [hcf, ct.val]⟩
     · rintro q _ (h | h)
       · exact h
       · exact h.elim
@@ -1048,18 +1218,25 @@ theorem orGates_sem {σ0 : FState} {es : List Nat} {dest : Option Nat} {e : BExp
       · exact h.elim
       · exact h
     · rintro m (h | h)
-      · exact h.elim
-      · exact ⟨h.1, hg.anc ▸ h.2⟩
-  rcases run_ite_ok.mp h with ⟨hle, h⟩ | ⟨_, h⟩
+      · exact Or.inr h
+      · rcases ct.anc m h.2 with h' | h'
+        · exact Or.inl ⟨h.1, h'⟩
+        · exact Or.inr h'
+  have ofGates : ∀ (t : CState), GatesOnly s t → (∀ q, q ≠ d → cur σ0 t q = cur σ0 s q) →
+      cur σ0 t d = Bool.xor (cur σ0 s d) (es.any (cur σ0 s)) → ChainSem σ0 d (es.any (cur σ0 s)) s t := by
+    intro t hg hfr hv
+    exact ⟨(Sem.of_gatesOnly hg (fun q hq => hfr q hq)).mono (fun _ _ h => h) (fun _ h => h) (fun _ h => h.elim),
+      hv, fun m hm => Or.inl (hg.anc ▸ hm)⟩
+  rcases run_ite_ok.mp h with ⟨hle, h⟩ | ⟨hgt, h⟩
   · obtain ⟨u1, s1, hcx, h1⟩ := run_bind_ok.mp h
-    match es, hd, hle, hcx, h1, fin with
-    | [], _, _, hcx, h1, fin =>
+    match es, hd, hle, hcx, h1, fin, ofGates with
+    | [], _, _, hcx, h1, fin, ofGates =>
       unfold cxAll at hcx
       obtain ⟨_, rfl⟩ := run_pure_ok.mp hcx
       rcases run_ite_ok.mp h1 with ⟨hc, _⟩ | ⟨_, h1⟩
       · simp at hc
-      · exact fin _ (GatesOnly.refl _) (fun _ _ => rfl) (by simp) h1
-    | [q1], hd, _, hcx, h1, fin =>
+      · exact fin _ (ofGates _ (GatesOnly.refl _) (fun _ _ => rfl) (by simp)) h1
+    | [q1], hd, _, hcx, h1, fin, ofGates =>
       unfold cxAll at hcx
       obtain ⟨u2, s2, hc1, hc2⟩ := run_bind_ok.mp hcx
       unfold cxAll at hc2
@@ -1067,8 +1244,8 @@ theorem orGates_sem {σ0 : FState} {es : List Nat} {dest : Option Nat} {e : BExp
       have a1 := cx_run hc1
       rcases run_ite_ok.mp h1 with ⟨hc, _⟩ | ⟨_, h1⟩
       · simp at hc
-      · exact fin _ a1.gatesOnly (fun q hq => a1.cur_ne rfl σ0 q hq) (by rw [a1.cur_eq rfl σ0]; simp) h1
-    | [q1, q2], hd, _, hcx, h1, fin =>
+      · exact fin _ (ofGates _ a1.gatesOnly (fun q hq => a1.cur_ne rfl σ0 q hq) (by rw [a1.cur_eq rfl σ0]; simp)) h1
+    | [q1, q2], hd, _, hcx, h1, fin, ofGates =>
       unfold cxAll at hcx
       obtain ⟨u2, s2, hc1, hc2⟩ := run_bind_ok.mp hcx
       unfold cxAll at hc2
@@ -1082,7 +1259,7 @@ theorem orGates_sem {σ0 : FState} {es : List Nat} {dest : Option Nat} {e : BExp
       rcases run_ite_ok.mp h1 with ⟨_, h1⟩ | ⟨hc, _⟩
       · obtain ⟨u4, s4, hm, h2⟩ := run_bind_ok.mp h1
         have a3 := mcx_run hm
-        refine fin _ ((a1.gatesOnly.trans a2.gatesOnly).trans a3.gatesOnly) ?_ ?_ h2
+        refine fin _ (ofGates _ ((a1.gatesOnly.trans a2.gatesOnly).trans a3.gatesOnly) ?_ ?_) h2
         · intro q hq
           rw [a3.cur_ne rfl σ0 q hq, a2.cur_ne rfl σ0 q hq, a1.cur_ne rfl σ0 q hq]
         · rw [a3.cur_eq rfl σ0, a2.cur_eq rfl σ0, a1.cur_eq rfl σ0]
@@ -1090,26 +1267,9 @@ theorem orGates_sem {σ0 : FState} {es : List Nat} {dest : Option Nat} {e : BExp
           rw [a2.cur_ne rfl σ0 q1 hq1, a2.cur_ne rfl σ0 q2 hq2, a1.cur_ne rfl σ0 q1 hq1, a1.cur_ne rfl σ0 q2 hq2]
           cases cur σ0 s d <;> cases cur σ0 s q1 <;> cases cur σ0 s q2 <;> rfl
       · simp at hc
-    | _ :: _ :: _ :: _, _, hle, _, _, _ => simp at hle
-  · obtain ⟨u1, s1, hx1, h1⟩ := run_bind_ok.mp h
-    obtain ⟨u2, s2, hm, h2⟩ := run_bind_ok.mp h1
-    obtain ⟨u3, s3, hx2, h3⟩ := run_bind_ok.mp h2
-    obtain ⟨u4, s4, hx3, h4⟩ := run_bind_ok.mp h3
-    have am := mcx_run hm
-    have hnd : es.Nodup := by
-      have := (appendError_none am.noerr).1
-      exact (List.nodup_append.mp this).1
-    obtain ⟨g1, v1⟩ := xAll_run (σ0 := σ0) es hx1 hnd
-    obtain ⟨g3, v3⟩ := xAll_run (σ0 := σ0) es hx2 hnd
-    have a4 := xGate_run hx3
-    refine fin _ (((g1.trans am.gatesOnly).trans g3).trans a4.gatesOnly) ?_ ?_ h4
-    · intro q hq
-      rw [a4.cur_ne rfl σ0 q hq, v3 q, am.cur_ne rfl σ0 q hq, v1 q]
-      by_cases hqe : q ∈ es <;> simp [hqe]
-    · rw [a4.cur_eq rfl σ0, v3 d, am.cur_eq rfl σ0, v1 d]
-      simp only [hd, if_false, List.all_nil, Bool.xor_true]
-      rw [all_not_eq es (cur σ0 s) (cur σ0 s1) (fun q hq => by rw [v1 q]; simp [hq])]
-      cases cur σ0 s d <;> cases es.any (cur σ0 s) <;> rfl
+    | _ :: _ :: _ :: _, _, hle, _, _, _, _ => simp at hle
+  · obtain ⟨u1, s1, hw, h1⟩ := run_bind_ok.mp h
+    exact fin _ (orWide_sem (σ0 := σ0) hw (by omega) hd hf hz hdlt hes) h1
 
 theorem exprSem_or {inputs : List String} {ρ : Env} {σ0 : FState} {r : String} (amb : Amb inputs σ0 r)
     {args : List BExp} (ih : ArgsSem inputs ρ σ0 r args) : ExprSem inputs ρ σ0 r (.or args) := by
@@ -1127,9 +1287,12 @@ theorem exprSem_or {inputs : List String} {ρ : Env} {σ0 : FState} {r : String}
       es = sortNat (if erets.contains d = true then erets.erase d else erets).eraseDups →
       (destOr dest).run s2 = .ok (d, s3) →
       StateT.run (if erets.contains d = true then do event "destAmongArgs"; k else k) s3 = .ok (a, s') →
-      (∀ {t : CState}, k.run t = .ok (a, s') → d ∉ es →
-        a = d ∧ Sem σ0 (· = d) (· = BExp.or args) (fun m => m ∈ es ∧ m ∈ t.qc.anc) t s' ∧
-          cur σ0 s' d = Bool.xor (cur σ0 t d) (es.any (cur σ0 t))) →
+      (k.run s3 = .ok (a, s') → d ∉ es → s3.qc.free = [] →
+        (∀ q, s3.qc.numQubits ≤ q → cur σ0 s3 q = false) → d < s3.qc.numQubits →
+        (∀ x ∈ es, x < s3.qc.numQubits) →
+        a = d ∧ Sem σ0 (· = d) (· = BExp.or args)
+            (fun m => (m ∈ es ∧ m ∈ s3.qc.anc) ∨ s3.qc.numQubits ≤ m) s3 s' ∧
+          cur σ0 s' d = Bool.xor (cur σ0 s3 d) (es.any (cur σ0 s3))) →
       Sem σ0 (fun q => dest = some q) (· ∈ compSubs (BExp.or args))
         (fun m => s1.qc.numQubits ≤ m ∧ (dest = none → m ≠ a)) s1 s' ∧
       (dest = none → (a < inputs.length ∨ s1.qc.numQubits ≤ a) ∧ cur σ0 s' a = (BExp.or args).eval ρ) ∧
@@ -1141,15 +1304,26 @@ theorem exprSem_or {inputs : List String} {ρ : Env} {σ0 : FState} {r : String}
     have hdes : d ∉ es := by rw [hes, mem_sortDedup]; exact hdn
     rcases run_ite_ok.mp h3 with ⟨hc, _⟩ | ⟨_, h3⟩
     · exact absurd hc hcd
-    · obtain ⟨rfl, semf, hv⟩ := hk h3 hdes
+    · have hd3 : d < s3.qc.numQubits := dest_lt hp2 sem1.nq hd hdest
+      have hes3 : ∀ x ∈ es, x < s3.qc.numQubits := by
+        intro x hx
+        rw [hes] at hx
+        have := (hb x (mem_sortDedup.mp hx)).2
+        have := sem2.nq
+        omega
+      obtain ⟨rfl, semf, hv⟩ := hk h3 hdes hp3.free (zero_of_good amb hp3.good hp3.nin) hd3 hes3
       have hval : cur σ0 s' a = Bool.xor (cur σ0 s2 a) (evalOr ρ args) := by
         rw [hv, hes, any_sortDedup, hc2, any_of_map hvals]
-      have hmk : ∀ m, m ∈ es ∧ m ∈ s3.qc.anc → s1.qc.numQubits ≤ m ∧ m < s2.qc.numQubits := by
-        rintro m ⟨h1, h2⟩
-        rw [hes] at h1
-        have hm := hb m (mem_sortDedup.mp h1)
-        have := hp3.sge.1 m h2
-        exact ⟨by omega, hm.2⟩
+      have hmk : ∀ m, (m ∈ es ∧ m ∈ s3.qc.anc) ∨ s3.qc.numQubits ≤ m → s1.qc.numQubits ≤ m ∧ m ≠ a := by
+        rintro m (⟨hm1, hm2⟩ | hm2)
+        · have hne : m ≠ a := fun he => hdes (he ▸ hm1)
+          rw [hes] at hm1
+          have hm := hb m (mem_sortDedup.mp hm1)
+          have := hp3.sge.1 m hm2
+          exact ⟨by omega, hne⟩
+        · have := sem1.nq
+          have := sem2.nq
+          exact ⟨by omega, by omega⟩
       rcases hdcase with hsome | ⟨hnone, hda, hz⟩
       · subst hsome
         obtain ⟨hd1, hd2⟩ := hd a rfl
@@ -1191,11 +1365,11 @@ theorem exprSem_or {inputs : List String} {ρ : Env} {σ0 : FState} {r : String}
   | some d0 =>
     dsimp only at h2
     obtain ⟨d, s3, hp0, h4⟩ := run_bind_ok.mp h2
-    exact body _ rfl hp0 h4 (fun hk hdes => orGates_sem hk hdes)
+    exact body _ rfl hp0 h4 (fun hk hdes hf hz hdl hel => orGates_sem hk hdes hf hz hdl hel)
   | none =>
     dsimp only at h2
     obtain ⟨d, s3, hf, h4⟩ := run_bind_ok.mp h2
-    exact body _ rfl hf h4 (fun hk hdes => orGates_sem hk hdes)
+    exact body _ rfl hf h4 (fun hk hdes hf hz hdl hel => orGates_sem hk hdes hf hz hdl hel)
 
 /-! ### `Xor`: accumulate every argument into one qubit -/
 
@@ -1888,10 +2062,10 @@ theorem compile_single_sem {inputs : List String} {r : String} {e : BExp} {rets 
   have hg0 : Good { choices := cs, inputs := inputs } := good_init cs inputs
   obtain ⟨u1, s1, hin, h2⟩ := run_bind_ok.mp h1
   obtain ⟨st1, hn1, _, hpos⟩ := addInputs_ok inputs hin hg0
-  obtain ⟨ha1, hf1, hm1⟩ := addInputs_scratch inputs hin
+  obtain ⟨ha1, hf1, hm1, hk1⟩ := addInputs_scratch inputs hin
   obtain ⟨hga1, hex1, hinp1⟩ := addInputs_quiet inputs hin
   obtain ⟨u2, s2, hdefs, h3⟩ := run_bind_ok.mp h2
-  obtain ⟨st2, _⟩ := compileDefs_ok (B := (· = r)) [(r, e)] hdefs st1.good
+  obtain ⟨st2, _⟩ := compileDefs_ok (B := (· = r)) (retBits := some rets) (doUnc := unc) [(r, e)] hdefs st1.good
     (fun p hp => by simp at hp; rw [hp])
   have hg2 := st2.good
   obtain ⟨u3, s3, hrem, h4⟩ := run_bind_ok.mp h3
@@ -1919,10 +2093,11 @@ theorem compile_single_sem {inputs : List String} {r : String} {e : BExp} {rets 
     have : x[q]? = none := by simp; omega
     simp [List.getD_eq_getElem?_getD, this]
   have hp1 : Pre inputs (envOf (inputs.zip x)) σ0 s1 := by
-    refine ⟨st1.good, hf1, Nat.le_of_eq hn1'.symm, ⟨?_, ?_, ?_⟩, ?_, ?_⟩
+    refine ⟨st1.good, hf1, Nat.le_of_eq hn1'.symm, ⟨?_, ?_, ?_, ?_⟩, ?_, ?_⟩
     · rw [ha1]; intro a ha; cases ha
     · rw [hf1]; intro a ha; cases ha
     · rw [hm1]; intro a ha; cases ha
+    · rw [hk1]; intro a ha; cases ha
     · intro i n hi
       have := hpos hnd (fun m hm => (hfresh m hm).2) i n hi
       simpa using this
@@ -1933,23 +2108,33 @@ theorem compile_single_sem {inputs : List String} {r : String} {e : BExp} {rets 
       rw [initState_getD, envOf_zip hnd hi]
   -- the statement loop
   unfold compileDefs at hdefs
-  dsimp only at hdefs
   obtain ⟨iret, t1, he, k1⟩ := run_bind_ok.mp hdefs
-  obtain ⟨u4, t2, hset, k2⟩ := run_bind_ok.mp k1
+  obtain ⟨u40, t1', hrs, k1'⟩ := run_bind_ok.mp k1
+  obtain ⟨u4, t2, hset, k2⟩ := run_bind_ok.mp k1'
   obtain ⟨u5, t3, hmap, k3⟩ := run_bind_ok.mp k2
-  obtain ⟨unc, t4, hunc, k4⟩ := run_bind_ok.mp k3
+  -- the defined name is a requested return bit (or there is no final uncomputation): ancillas are released inline
+  have hinl : inlineUncompute (some rets) unc r = true := by
+    unfold inlineUncompute
+    cases unc with
+    | false => rfl
+    | true => simpa using hr rfl
+  rw [if_pos hinl] at k3
+  obtain ⟨uncd, t4, hunc, k4⟩ := run_bind_ok.mp k3
   obtain ⟨u6, t5, hrm, k5⟩ := run_bind_ok.mp k4
   unfold compileDefs at k5
   obtain ⟨_, rfl⟩ := run_pure_ok.mp k5
   obtain ⟨q1, hlt⟩ := exprSpec (B := (· = r)) e none (some r) he st1.good (by intro d hd; cases hd)
     (by intro y hy; cases hy; rfl)
   obtain ⟨hval, hnm⟩ := topExpr_sem (ρ := envOf (inputs.zip x)) amb hov htl he hp1 hex1 hm1 hinp1
-  have q2 : Step (· = r) t1 t2 := expqSet_ok hset q1.good hlt
-  obtain ⟨hqc2, _⟩ := expqSet_run hset
-  obtain ⟨q3, hkey⟩ := mapQubit_ok (B := (· = r)) hmap q2.good (Nat.lt_of_lt_of_le hlt q2.nq_le) rfl
-    (by intro hp
-        have : r.startsWith "__" = true := by simpa using hp
-        simp [scratchName, this])
+  have q1' : Step (· = r) t1 t1' := expqRemoveSymbol_ok hrs q1.good
+  have hqc1' : t1'.qc = t1.qc := by
+    unfold expqRemoveSymbol at hrs
+    have := run_modify_ok.mp hrs; subst this; rfl
+  have q2 : Step (· = r) t1' t2 := expqSet_ok hset q1'.good (Nat.lt_of_lt_of_le hlt q1'.nq_le)
+  obtain ⟨hqc2', _⟩ := expqSet_run hset
+  have hqc2 : t2.qc = t1.qc := hqc2'.trans hqc1'
+  obtain ⟨q3, hkey⟩ := mapQubit_ok (B := (· = r)) hmap q2.good
+    (Nat.lt_of_lt_of_le hlt (q1'.trans q2).nq_le) rfl (by intro hp; cases hp)
   obtain ⟨hg3, hm3, _⟩ := mapQubit_run hmap
   obtain ⟨extra, e1, e2, e3, e4⟩ := uncompute_gates hunc
   have hqc5 := expqRemove_run hrm
